@@ -199,9 +199,24 @@ def check(ck):
             t = prov.origin(gu, n, n.ast.value)
             if t == ("tuple", ()) or t == ("other", "[]"):
                 list_vars.add(n.ast.value.id)
+    filtered = False
+    ret_var = None
+    if not list_vars:
+        # responses = [x for x in L if x is not None]  with L built by the loop
+        for n in gu.live_nodes():
+            if n.kind == "return" and n.ast is not None and isinstance(n.ast.value, ast.Name):
+                for dn in [gu.nodes[i] for i in prov.rd_of(gu).get(n.id, {}).get(n.ast.value.id, ())]:
+                    v = dn.ast.value if dn.kind == "stmt" and isinstance(dn.ast, ast.Assign) else None
+                    if isinstance(v, ast.ListComp) and len(v.generators) == 1 and isinstance(v.generators[0].target, ast.Name) \
+                            and isinstance(v.elt, ast.Name) and v.elt.id == v.generators[0].target.id and isinstance(v.generators[0].iter, ast.Name) \
+                            and len(v.generators[0].ifs) == 1 and dump(v.generators[0].ifs[0]) == "%s is not None" % v.elt.id:
+                        list_vars.add(v.generators[0].iter.id)
+                        ret_var = n.ast.value.id
+                        filtered = True
     if len(list_vars) != 1:
         raise AnalysisError("anchor vanished: the response list returned by %s (found %s)" % (where, sorted(list_vars)))
     lv = next(iter(list_vars))
+    ret_var = ret_var or lv
     body_ids = set()
     for n in gu.live_nodes():
         if n.ast is not None and any(sub is n.ast for st in loop_ast.body for sub in ast.walk(st)):
@@ -286,8 +301,8 @@ def check(ck):
         seen.add(key)
         n_iter += 1
         if cnt == 0:
-            none_ok = single_var is not None and ((single_var + " is not None", False) in facts
-                                                  or (single_var + " is None", True) in facts)
+            none_ok = (not filtered) and single_var is not None and ((single_var + " is not None", False) in facts
+                                                                     or (single_var + " is None", True) in facts)
             ck.require(none_ok, "C03.3", "%s: iteration appends nothing" % where,
                        "zero appends only when the single dispatch returned None",
                        "an entry of a batch gets no response although its dispatch result was not None",
@@ -316,8 +331,8 @@ def check(ck):
 
     # ---- C03.4 -------------------------------------------------------------------------
     for n in gu.live_nodes():
-        if n.kind == "return" and n.ast is not None and isinstance(n.ast.value, ast.Name) and n.ast.value.id == lv:
-            b = _dominating_branch(gu, domu, n, lambda bn: dump(bn.test) == lv and bn.polarity is True)
+        if n.kind == "return" and n.ast is not None and isinstance(n.ast.value, ast.Name) and n.ast.value.id == ret_var:
+            b = _dominating_branch(gu, domu, n, lambda bn: dump(bn.test) == ret_var and bn.polarity is True)
             ck.require(b is not None, "C03.4", "%s: return %s" % (where, lv),
                        "the list is returned only when non-empty",
                        "the batch response list can be returned empty (no emptiness guard dominates `return %s`): "
